@@ -21,9 +21,8 @@ def variants(P, name):
     return t[0] if t else None
 
 
-def map_rule(ctx, res):
+def map_rule(ctx, res, rule="C18.map", directions=("from_serde_json", "into_serde_json")):
     P = ctx.P
-    rule = "C18.map"
     jv = variants(P, "json_syntax::Value")
     sv = variants(P, "serde_json::Value")
     if jv is None or sv is None:
@@ -43,6 +42,8 @@ def map_rule(ctx, res):
     ]
     for direction, fn_rx, src, dst, srcn, dstn in (("from_serde_json", r"<impl json_syntax::Value>::from_serde_json$", sv, jv, sn, jn),
                                                       ("into_serde_json", r"<impl json_syntax::Value>::into_serde_json$", jv, sv, jn, sn)):
+        if direction not in directions:
+            continue
         try:
             inst = shape.find_inst(P, fn_rx)
         except Undecided as e:
@@ -98,10 +99,12 @@ def map_rule(ctx, res):
             pe = any(P.inst[i]["path"] == "json_syntax::Object::push_entry" for i in reach)
             ins = any(P.inst[i]["path"] in ("json_syntax::Object::insert", "json_syntax::Object::insert_front") for i in reach)
             res.ob(pe and not ins, rule, "%s/%s/push-family" % (rule, direction), "from_serde_json must build objects through the push family (push_entry reachable: %s, insert reachable: %s)" % (pe, ins))
-    res.floor(rule, "variant_mappings", 12)
+    res.floor(rule, "variant_mappings", 6 * len(directions))
     # the From impls delegate
     for rx, target in ((r"<impl std::convert::From<serde_json::Value> for json_syntax::Value>::from$", "json_syntax::convert::serde_json::<impl json_syntax::Value>::from_serde_json"),
                        (r"<impl std::convert::From<json_syntax::Value> for serde_json::Value>::from$", "json_syntax::convert::serde_json::<impl json_syntax::Value>::into_serde_json")):
+        if target.rsplit("::", 1)[-1] not in directions:
+            continue
         try:
             f = shape.find_inst(P, rx)
             cs = [c["path"] for bi, c, t in static.calls(P, f) if c is not None]
